@@ -590,7 +590,17 @@ func generateStubPropertyCallback(file *jen.File, itf *idl.InterfaceType) error 
 			),
 		)
 		writing = append(writing, code)
-		code = jen.Id(`return p.impl.On` + propertyName + `Change(prop)`)
+		// the callback takes the parameters of the property: with
+		// several of them the value is a struct of its members.
+		args := "prop"
+		if len(property.Params) > 1 {
+			fields := make([]string, 0)
+			for _, m := range property.Tuple().Members {
+				fields = append(fields, "prop."+m.Title())
+			}
+			args = strings.Join(fields, ", ")
+		}
+		code = jen.Id(`return p.impl.On` + propertyName + `Change(` + args + `)`)
 		writing = append(writing, code)
 		return nil
 	}
